@@ -15,8 +15,9 @@ commutative ring in the proofs), and is a transcription of the loops that exist 
       — `modulo` (include/stir/modulo.h:79), `transform_array_to/from_periodic_indices` (include/stir/ArrayFunction.inl:312, :332),
         `ArrayFilterUsingRealDFTWithPadding::{set_kernel,set_padding_range,do_it}` (ArrayFilterUsingRealDFTWithPadding.cxx:51, :71, :113).
         The product of the two real-data DFTs followed by the inverse DFT is modelled by what it computes exactly,
-        the circular convolution `circConv…`; that link is the convolution theorem (not proved here) and is checked by the
-        correspondence run within the rounding bound.
+        the circular convolution `circConv…`; that link is the convolution theorem (proved for the 1-D complex DFT by its
+        definition: `C19_convolution_theorem` in Props.lean; the real-data packing and the n-D recursion are not) and is
+        checked by the correspondence run within the rounding bound.
 * `sepAxis0/1/2`, `separable3`              — `SeparableArrayFunctionObject::do_it` → `in_place_apply_array_functions_on_each_index`
         (SeparableArrayFunctionObject.cxx:42, include/stir/ArrayFunction.inl:196)
 * `sciKernelMin`                            — index placement in `SeparableConvolutionImageFilter::post_processing` (…ImageFilter.cxx:62)
@@ -37,8 +38,8 @@ next to the answer of the code as it is, the answer of a library in which that g
 Not modelled: 32-bit overflow; `float` rounding of the transforms (the model runs at binary64 and is compared within a
 derived bound); irregular arrays.  Proved about this model (Props.lean): loops = convolution sums for all index ranges,
 circular = linear convolution without wrap-around, separability in any axis order, bit reversal, `fourier1d` = DFT for
-every power of two, inverse ∘ forward = id, Hermitian index map; NOT proved: convolution theorem, real-data packing trick,
-n-dimensional recursion (correspondence only).
+every power of two, inverse ∘ forward = id, Hermitian index map, convolution theorem (1-D, DFT by its definition);
+NOT proved: real-data packing trick, n-dimensional recursion (correspondence only).
 -/
 namespace StirVerif.C19
 
